@@ -55,6 +55,7 @@ type PathState struct {
 	Panicked   bool                    // the path ends in a panic raised inside an inlined helper
 	Resolved   map[string]*Term        // call term key -> the value the (pure, branching) callee returns on this path
 	visits     map[*ssa.BasicBlock]int // how often each block has been entered so far (unrolled loops)
+	havoc      map[int]bool            // positions in Blocks where a data-loop header is re-entered with unknown loop-carried values
 }
 
 // PhiIn returns, for a path that ended by entering StopBlock, the term flowing into phi (a phi of StopBlock).
@@ -1449,12 +1450,20 @@ func EnumPathsTo(fn *ssa.Function, from *ssa.BasicBlock, target ssa.Instruction,
 	on := map[*ssa.BasicBlock]int{}
 	var dfs func(b *ssa.BasicBlock)
 	var stopNow *ssa.BasicBlock
+	dls := dataLoops(fn)
+	var havocPos []int
 	run := func() {
 		if res.Paths+res.Infeasible >= PathLimit {
 			res.Complete = false
 			return
 		}
 		s := &PathState{Fn: fn, Blocks: append([]*ssa.BasicBlock(nil), path...), env: map[ssa.Value]*Term{}, mem: map[string]*Term{}, memver: map[string]int{}, loopy: loopy, StopBlock: stopNow}
+		if len(havocPos) > 0 {
+			s.havoc = map[int]bool{}
+			for _, x := range havocPos {
+				s.havoc[x] = true
+			}
+		}
 		s.exec(0, 0, target, func(fs *PathState) {
 			if res.Paths+res.Infeasible >= PathLimit {
 				res.Complete = false
@@ -1498,6 +1507,19 @@ func EnumPathsTo(fn *ssa.Function, from *ssa.BasicBlock, target ssa.Instruction,
 				continue
 			}
 			if on[nx] >= limit(nx) {
+				if dl := dls[nx]; dl != nil && limit(nx) == 1 && on[nx] == 1 && nx != stop && dl.Body[b] {
+					// a data loop that ran at least once: header again (unknown loop-carried values), then out
+					ex := dl.Exit
+					if on[ex] < limit(ex) && (target == nil || canReach[ex]) {
+						path = append(path, nx)
+						havocPos = append(havocPos, len(path)-1)
+						on[nx]++
+						dfs(ex)
+						on[nx]--
+						havocPos = havocPos[:len(havocPos)-1]
+						path = path[:len(path)-1]
+					}
+				}
 				continue
 			}
 			if target != nil && !canReach[nx] {
@@ -1559,6 +1581,11 @@ func (s *PathState) exec(bi, ii int, target ssa.Instruction, emit func(*PathStat
 				}
 			}
 			for _, x := range pvs {
+				if s.havoc[i] {
+					// after an unknown number of iterations the loop-carried values are unknown
+					s.env[x.p] = mk("loopvar", "", "loopvar<"+instrID(x.p)+">", x.p)
+					continue
+				}
 				s.env[x.p] = x.t
 			}
 		}
